@@ -268,7 +268,7 @@ impl Side {
         let total_model = self.model.len() - self.consumed;
         let slices: Vec<(usize, usize)> = self.iov.stable_prefix().iter().map(|s| (s.as_ptr() as usize, s.len())).collect();
         if slices.iter().any(|s| s.1 == 0) {
-            return Err(format!("{}: an exposed slice is empty", who));
+            return Err(format!("[content] {}: an exposed slice is empty", who));
         }
         let mut flat: Vec<u8> = Vec::new();
         for (idx, s) in self.iov.stable_prefix().iter().enumerate() {
@@ -276,7 +276,7 @@ impl Side {
             // C05: liveness first (never read through a dangling slice without saying so)
             if !(in_static(ptr, s.len()) || owning_iovec::verif::is_live(ptr, s.len())) {
                 return Err(format!(
-                    "{}: exposed slice #{} ({} bytes) is neither inside a live arena chunk nor inside a caller buffer (use after free)",
+                    "[live] {}: exposed slice #{} ({} bytes) is neither inside a live arena chunk nor inside a caller buffer (use after free)",
                     who, idx, s.len()
                 ));
             }
@@ -285,15 +285,15 @@ impl Side {
         let v = flat.len();
         // total size, emptiness
         if self.iov.total_size() != total_model {
-            return Err(format!("{}: total_size() = {} expected appended - consumed = {}", who, self.iov.total_size(), total_model));
+            return Err(format!("[content] {}: total_size() = {} expected appended - consumed = {}", who, self.iov.total_size(), total_model));
         }
         let is_empty = self.iov.is_empty();
         if (self.iov.len() == 0) != is_empty || is_empty != (total_model == 0) {
-            return Err(format!("{}: len() = {}, is_empty() = {}, but {} bytes are buffered", who, self.iov.len(), is_empty, total_model));
+            return Err(format!("[content] {}: len() = {}, is_empty() = {}, but {} bytes are buffered", who, self.iov.len(), is_empty, total_model));
         }
         // never beyond the earliest hole
         if v > total_model {
-            return Err(format!("{}: {} bytes visible but only {} buffered", who, v, total_model));
+            return Err(format!("[content] {}: {} bytes visible but only {} buffered", who, v, total_model));
         }
         if let Some(h) = self.first_hole() {
             if self.consumed + v > h {
@@ -305,7 +305,7 @@ impl Side {
                 ));
             }
         } else if v != total_model {
-            return Err(format!("{}: no placeholder pending but only {} of {} buffered bytes are visible", who, v, total_model));
+            return Err(format!("[content] {}: no placeholder pending but only {} of {} buffered bytes are visible", who, v, total_model));
         }
         // content
         for (i, byte) in flat.iter().enumerate() {
@@ -321,72 +321,72 @@ impl Side {
                         if *byte == POISON { " (0xFC = freed-arena poison)" } else { "" }
                     ))
                 }
-                Cell::Hole(id) => return Err(format!("{}: visible byte {} belongs to unfilled placeholder #{}", who, i, id)),
+                Cell::Hole(id) => return Err(format!("[content] {}: visible byte {} belongs to unfilled placeholder #{}", who, i, id)),
             }
         }
         // the views agree with each other
         let pending = !self.pending.is_empty();
         if self.iov.has_pending_backrefs() != pending {
-            return Err(format!("{}: has_pending_backrefs() = {} expected {}", who, !pending, pending));
+            return Err(format!("[content] {}: has_pending_backrefs() = {} expected {}", who, !pending, pending));
         }
         let front = self.iov.front().map(|s| (s.as_ptr() as usize, s.len()));
         if front != slices.first().copied() {
-            return Err(format!("{}: front() disagrees with stable_prefix()", who));
+            return Err(format!("[content] {}: front() disagrees with stable_prefix()", who));
         }
         let iovs = self.iov.iovs();
         if iovs.is_err() != pending {
-            return Err(format!("{}: iovs().is_ok() = {} with placeholder pending = {}", who, iovs.is_ok(), pending));
+            return Err(format!("[content] {}: iovs().is_ok() = {} with placeholder pending = {}", who, iovs.is_ok(), pending));
         }
         let payload = match iovs {
             Ok(x) | Err(x) => x,
         };
         if payload.iter().map(|s| (s.as_ptr() as usize, s.len())).collect::<Vec<_>>() != slices {
-            return Err(format!("{}: iovs() payload disagrees with stable_prefix()", who));
+            return Err(format!("[content] {}: iovs() payload disagrees with stable_prefix()", who));
         }
         let fl = self.iov.flatten();
         if fl.is_err() != pending {
-            return Err(format!("{}: flatten().is_ok() = {} with placeholder pending = {}", who, fl.is_ok(), pending));
+            return Err(format!("[content] {}: flatten().is_ok() = {} with placeholder pending = {}", who, fl.is_ok(), pending));
         }
         let fl = match fl {
             Ok(x) | Err(x) => x,
         };
         if fl != flat {
-            return Err(format!("{}: flatten() disagrees with stable_prefix()", who));
+            return Err(format!("[content] {}: flatten() disagrees with stable_prefix()", who));
         }
         let fi = self.iov.flatten_into(vec![0x5A, 0x5B]);
         let fi = match fi {
             Ok(x) => {
                 if pending {
-                    return Err(format!("{}: flatten_into() is Ok with a placeholder pending", who));
+                    return Err(format!("[content] {}: flatten_into() is Ok with a placeholder pending", who));
                 }
                 x
             }
             Err(x) => {
                 if !pending {
-                    return Err(format!("{}: flatten_into() is Err with no placeholder pending", who));
+                    return Err(format!("[content] {}: flatten_into() is Err with no placeholder pending", who));
                 }
                 x
             }
         };
         if fi[..2] != [0x5A, 0x5B] || fi[2..] != flat[..] {
-            return Err(format!("{}: flatten_into() disagrees with stable_prefix()", who));
+            return Err(format!("[content] {}: flatten_into() disagrees with stable_prefix()", who));
         }
         let iterated: Vec<(usize, usize)> = (&self.iov).into_iter().map(|s| (s.as_ptr() as usize, s.len())).collect();
         if iterated != slices {
-            return Err(format!("{}: IntoIterator disagrees with stable_prefix()", who));
+            return Err(format!("[content] {}: IntoIterator disagrees with stable_prefix()", who));
         }
         match self.iov.stable_consumer() {
             Ok(stable) => {
                 if pending {
-                    return Err(format!("{}: stable_consumer() is Ok with a placeholder pending", who));
+                    return Err(format!("[content] {}: stable_consumer() is Ok with a placeholder pending", who));
                 }
                 if stable.iovs().iter().map(|s| (s.as_ptr() as usize, s.len())).collect::<Vec<_>>() != slices || stable.flatten() != flat {
-                    return Err(format!("{}: StableIovec views disagree with stable_prefix()", who));
+                    return Err(format!("[content] {}: StableIovec views disagree with stable_prefix()", who));
                 }
             }
             Err(_) => {
                 if !pending {
-                    return Err(format!("{}: stable_consumer() is Err with no placeholder pending", who));
+                    return Err(format!("[content] {}: stable_consumer() is Err with no placeholder pending", who));
                 }
             }
         }
@@ -532,7 +532,7 @@ impl Exec {
                 let filler = vec![HOLE_FILLER; n as usize];
                 let token = s.iov.register_patch(&filler);
                 if token.len() != n as usize || token.is_empty() != (n == 0) {
-                    return Err(format!("register_patch({}) returned a token of length {}", n, token.len()));
+                    return Err(format!("[content] register_patch({}) returned a token of length {}", n, token.len()));
                 }
                 let pos = s.model.len();
                 for _ in 0..n {
@@ -543,7 +543,7 @@ impl Exec {
                     let before = s.iov.total_size();
                     s.iov.backfill_or_panic(token, &[]);
                     if s.iov.total_size() != before {
-                        return Err("backfilling an empty token changed the contents".into());
+                        return Err("[content] backfilling an empty token changed the contents".into());
                     }
                 } else {
                     s.pending.push(Pending { token, pos, len: n as usize, id });
@@ -578,7 +578,7 @@ impl Exec {
                 };
                 s.consumed = 0;
                 if !s.iov.is_empty() || s.iov.total_size() != 0 || s.iov.has_pending_backrefs() {
-                    return Err("take() left a non-empty iovec behind".into());
+                    return Err("[content] take() left a non-empty iovec behind".into());
                 }
                 // keep exploring: side A is the taken value, side B the left-behind one
                 std::mem::swap(s, &mut moved);
@@ -635,7 +635,7 @@ impl Exec {
                 let got = s.iov.consumer().consume(count);
                 let want = count.min(lens.len());
                 if got != want {
-                    return Err(format!("consume({}) returned {} with {} consumable slices", n, got, lens.len()));
+                    return Err(format!("[content] consume({}) returned {} with {} consumable slices", n, got, lens.len()));
                 }
                 let bytes: usize = lens[..want].iter().sum();
                 s.consumed += bytes;
@@ -648,7 +648,7 @@ impl Exec {
                 let got = s.iov.consumer().advance_slices(count);
                 let want = count.min(stable);
                 if got != want {
-                    return Err(format!("advance_slices({}) returned {} with {} consumable bytes", n, got, stable));
+                    return Err(format!("[content] advance_slices({}) returned {} with {} consumable bytes", n, got, stable));
                 }
                 s.consumed += want;
                 self.ever_consumed |= want > 0;
@@ -667,15 +667,15 @@ impl Exec {
                 let got = s.iov.consumer().read(&mut buf).map_err(|e| format!("read failed: {}", e))?;
                 let want = (n as usize).min(stable);
                 if got != want {
-                    return Err(format!("read({}) returned {} with {} consumable bytes", n, got, stable));
+                    return Err(format!("[content] read({}) returned {} with {} consumable bytes", n, got, stable));
                 }
                 for (j, byte) in buf[..got].iter().enumerate() {
                     if s.model[s.consumed + j] != Cell::Byte(*byte) {
-                        return Err(format!("read({}) copied {:#04x} at {} expected {:?}", n, byte, j, s.model[s.consumed + j]));
+                        return Err(format!("[content] read({}) copied {:#04x} at {} expected {:?}", n, byte, j, s.model[s.consumed + j]));
                     }
                 }
                 if buf[got..].iter().any(|x| *x != 0x77) {
-                    return Err("read wrote past the count it reported".into());
+                    return Err("[content] read wrote past the count it reported".into());
                 }
                 s.consumed += got;
                 self.ever_consumed |= got > 0;
@@ -727,7 +727,7 @@ impl Exec {
                 let got = h.slice.skip_prefix(1);
                 let want = 1.min(h.expect.len());
                 if got != want {
-                    return Err(format!("skip_prefix(1) returned {}", got));
+                    return Err(format!("[content] skip_prefix(1) returned {}", got));
                 }
                 h.expect.drain(..want);
             }
@@ -736,7 +736,7 @@ impl Exec {
                 let got = h.slice.drop_suffix(1);
                 let want = 1.min(h.expect.len());
                 if got != want {
-                    return Err(format!("drop_suffix(1) returned {}", got));
+                    return Err(format!("[content] drop_suffix(1) returned {}", got));
                 }
                 let keep = h.expect.len() - want;
                 h.expect.truncate(keep);
@@ -764,10 +764,10 @@ impl Exec {
         for (i, h) in self.held.iter().enumerate() {
             let s = h.slice.slice();
             if !s.is_empty() && !owning_iovec::verif::is_live(s.as_ptr() as usize, s.len()) {
-                return Err(format!("held AnchoredSlice #{} points outside every live arena chunk (use after free)", i));
+                return Err(format!("[live] held AnchoredSlice #{} points outside every live arena chunk (use after free)", i));
             }
             if s != h.expect.as_slice() {
-                return Err(format!("held AnchoredSlice #{} reads [{}] expected [{}]", i, hex(s), hex(&h.expect)));
+                return Err(format!("[content] held AnchoredSlice #{} reads [{}] expected [{}]", i, hex(s), hex(&h.expect)));
             }
         }
         // distinct owned allocations never overlap
@@ -779,7 +779,7 @@ impl Exec {
                     let xs = (x.slice.slice().as_ptr() as usize, x.slice.slice().len());
                     let ys = (y.slice.slice().as_ptr() as usize, y.slice.slice().len());
                     if overlap(xs, ys) {
-                        return Err(format!("held AnchoredSlices #{} and #{} from distinct reads overlap", i, j));
+                        return Err(format!("[live] held AnchoredSlices #{} and #{} from distinct reads overlap", i, j));
                     }
                 }
             }
@@ -793,13 +793,13 @@ impl Exec {
             for i in 0..owned.len() {
                 for j in i + 1..owned.len() {
                     if overlap(owned[i], owned[j]) {
-                        return Err("two exposed slices copied into the arena overlap".to_string());
+                        return Err("[live] two exposed slices copied into the arena overlap".to_string());
                     }
                 }
                 for h in &self.held {
                     let hs = (h.slice.slice().as_ptr() as usize, h.slice.slice().len());
                     if overlap(owned[i], hs) {
-                        return Err("an exposed copied slice overlaps a held AnchoredSlice".to_string());
+                        return Err("[live] an exposed copied slice overlaps a held AnchoredSlice".to_string());
                     }
                 }
             }
@@ -849,11 +849,11 @@ impl Exec {
             let total = s.model.len() - s.consumed;
             let got = s.iov.consumer().advance_slices(usize::MAX);
             if got != total {
-                return Err(format!("{}: final drain consumed {} of {} bytes", who, got, total));
+                return Err(format!("[content] {}: final drain consumed {} of {} bytes", who, got, total));
             }
             s.consumed += got;
             if !s.iov.is_empty() || s.iov.total_size() != 0 {
-                return Err(format!("{}: not empty after draining everything", who));
+                return Err(format!("[content] {}: not empty after draining everything", who));
             }
         }
         let Exec { sides, spare, held, live0, .. } = self;
@@ -872,7 +872,7 @@ impl Exec {
         let live1 = (ByteArena::num_live_chunks(), ByteArena::num_live_bytes());
         if live1 != live0 {
             return Err(format!(
-                "arena leak: live (chunks, bytes) went from {:?} to {:?} although every iovec, arena and AnchoredSlice was dropped",
+                "[leak] arena leak: live (chunks, bytes) went from {:?} to {:?} although every iovec, arena and AnchoredSlice was dropped",
                 live0, live1
             ));
         }
